@@ -105,6 +105,64 @@ def judge(case, res, single):
             fails.append('words of all parts %r differ from the single-language run %r' % (b[:8], a[:8]))
     return fails
 
+_LC = {}
+def change_collection(code):
+    if code not in _LC:
+        m = impl.load()
+        _LC[code] = list(m.parameters.Parameters(code[:2]).lang_context.lang_change_repl)
+    return _LC[code]
+
+def insertion_cases(rng, n):
+    """short foreign insertions inside sentences of en / de / ru text, the document ending in yet another language: the
+    insertion is represented, in the surrounding part, by exactly one placeholder of the language-change collection of
+    the language of that part"""
+    L = {'en-GB': 'english', 'de-DE': 'german', 'ru-RU': 'russian'}
+    out = []
+    for _ in range(n):
+        used = set()
+        def w():
+            while True:                 # unique words of one length: none is a prefix of another
+                x = 'Q' + ''.join(rng.choice('abcdefghijklmnopqrstuvwxyz') for _ in range(4))
+                if x not in used:
+                    used.add(x); return x
+        main = rng.choice(list(L))
+        cur = main
+        parts = ['\\usepackage{babel}\n']
+        exp = []          # (language of the surrounding part, word before, word after)
+        for _ in range(rng.randint(1, 3)):
+            other = rng.choice([l for l in L if l != cur])
+            a, b, c2 = w(), w(), w()
+            ins = ' '.join(w() for _ in range(rng.randint(1, 2)))
+            form = rng.choice(['\\foreignlanguage{%s}{%s}', '\\begin{otherlanguage*}{%s}%s\\end{otherlanguage*}'])
+            parts.append('%s %s %s %s %s.\n' % (a, b, form % (L[other], ins), c2, w()))
+            exp.append((cur, b, c2))
+            if rng.random() < 0.6:
+                cur = rng.choice(list(L))
+                parts.append('\\selectlanguage{%s}\n' % L[cur])
+                parts.append('%s %s.\n' % (w(), w()))
+        out.append({'src': ''.join(parts), 'opts': {'lang': main, 'pack': '*'}, 'multi': True, 'thresh': rng.choice([2, 3, 5]), 'kind': 'insertion', 'exp': exp})
+    return out
+
+def judge_insertion(c, r):
+    if r['outcome'] != 'ok':
+        return []
+    for (lang, before, after) in c['exp']:
+        coll = change_collection(lang)
+        found = None
+        for l, ps in r['parts']:
+            for (t, p) in ps:
+                i = t.find(before + ' ')
+                j = t.find(after)
+                if i >= 0 and j > i:
+                    found = (l, t[i + len(before):j].strip())
+        if found is None:
+            return ['the sentence around the insertion between %r and %r is not kept in one part: %r' % (before, after, [(l, [t for t, _ in ps]) for l, ps in r['parts']])]
+        if found[0] != lang:
+            return ['the sentence with %r stands in a part labelled %r, language in force is %r' % (before, found[0], lang)]
+        if found[1] not in coll:
+            return ['a short foreign insertion in %s text is represented by %r; the language-change collection of that language is %r' % (lang, found[1], coll)]
+    return []
+
 def run_pair(c):
     slim = {k: v for k, v in c.items() if k not in ('ast', 'words', 'spans', 'callspans')}
     return t2t.run_case(slim), t2t.run_case(dict(slim, multi=False, want_toks=False))
@@ -187,11 +245,22 @@ def run(ctx):
             ctx.violation(fails[0], src=c['src'], opts=c['opts'], thresh=c['thresh'], multi=True, case=semrun.pack(c))
         if len(ctx.samples) < 3 and len(set(want.values())) >= 2:
             ctx.sample({'src': c['src'][:300], 'parts': [(l, [t for t, _ in ps]) for l, ps in (r.get('parts') or [])]})
+    ic = insertion_cases(rng, ctx.scale(200, 4000))
+    ires = ctx.pmap(t2t.run_case, [{k: v for k, v in c.items() if k != 'exp'} for c in ic])
+    for c, r in zip(ic, ires):
+        ctx.case(c['src']); ctx.count('short_insertions', len(c['exp']))
+        f = judge_insertion(c, r)
+        if f:
+            ctx.violation(f[0], src=c['src'], opts=c['opts'], thresh=c['thresh'], multi=True, insertion=c['exp'])
+    corr.t2t(ctx, ic, ires, proj=('outcome', 'toks', 'text'), limit=len(ic))
     rs = [r for r, _ in results]
     corr.t2t(ctx, cases, rs, proj=('outcome', 'toks', 'text'), limit=ctx.scale(900, 20000))
     corr.leaf_corr(ctx, cases, rs, want=('ml',), limit=ctx.scale(400, 5000))
 
 def judge_witness(w):
+    if w.get('insertion'):
+        c = {'src': w['src'], 'opts': w.get('opts') or {}, 'multi': True, 'thresh': w.get('thresh', 3), 'exp': [tuple(e) for e in w['insertion']]}
+        return judge_insertion(c, t2t.run_case({k: v for k, v in c.items() if k != 'exp'}))
     c = {'src': w['src'], 'opts': w.get('opts') or {}, 'multi': True, 'thresh': w.get('thresh', 3)}
     r = t2t.run_case(c)
     if r['outcome'] != 'ok':
@@ -209,6 +278,10 @@ def rejudge(c):
 
 def replay(data):
     v = data['violation']
+    if v.get('insertion'):
+        f = judge_witness(v)
+        print('\n'.join(f) if f else 'ok')
+        return not f
     if not v.get('case'):
         print('no stored case; violation was:', v.get('what')); return True
     f = rejudge(semrun.unpack(v['case']))
